@@ -243,7 +243,7 @@ def run_program(prog, ret, args, x):
   for a in args:
     for p, v in G.ref_leaves(a):
       if G._is_var(v):
-        total = total + jnp.sum(v.value) * w
+        total = total + jnp.sum(v.value) * w * v.get_metadata().get('gain', 1.0)
         w += 0.5
   if ret[0] in ('scalar', 'wrap'):
     return total
@@ -267,6 +267,8 @@ def gen_specs(rng):
     for v in s['vars']:
       v['shape'] = (2,)
       v['meta'] = {k: val for k, val in v['meta'].items() if k == 'tag'}
+      if rng.random() < 0.4:
+        v['meta']['gain'] = rng.choice([0.5, 2.0, 3.0])   # numeric metadata that the function READS (static under jit)
     specs.append(s)
   # *_first: the first positional argument is not a Module but a bare Variable / a dict of Variables (standalone, or - 'shared' -
   # also reachable from the next argument)
@@ -521,6 +523,18 @@ def case_jit_like(ctx, rng, kind, desc_base):
       for args in (args_e, args_t):
         setattr(first_module(args), 'caller_added_%d' % call, C['Param'](jnp.asarray([7.0, 8.0])))
       ctx.event('caller_side_edits')
+    elif call + 1 < n_calls and kind == 'jit':  # (cached_partial caches the graph definition, metadata included, by contract)
+      # caller-side METADATA edit between calls: structure, shapes and dtypes stay the same, the function's result does not
+      from vf.gen import nnx_graph as G2
+      edited = 0
+      for args in (args_e, args_t):
+        for a in args:
+          for _, v in G2.ref_leaves(a):
+            if G2._is_var(v) and 'gain' in v.get_metadata():
+              v.gain = v.get_metadata()['gain'] + 1.0
+              edited += 1
+      if edited:
+        ctx.event('caller_side_metadata_edits')
 
 
 def _same_objects(r, a):
